@@ -18,6 +18,8 @@ pub struct Draft {
     /// (raw key element, raw value element or None when the value is missing)
     pub kv: Vec<(Vec<u8>, Option<Vec<u8>>)>,
     pub has_custom: bool,
+    /// use this signature instead of signing (weak ed25519 keys whose secret nobody knows)
+    pub forced_sig: Option<Vec<u8>>,
 }
 
 pub const SEQ_BOUNDARY: [u64; 18] = [
@@ -330,7 +332,30 @@ pub fn gen_valid_draft(c: &mut Choices) -> Draft {
         seq_raw: rlp::encode_uint(seq),
         kv: m.into_iter().map(|(kk, v)| (k(&kk), Some(v))).collect(),
         has_custom,
+        forced_sig: None,
     };
+    if scheme == Scheme::Ed && !both && c.chance(16) {
+        // a small-order ed25519 public key (the neutral element, in canonical and non-canonical
+        // encodings): with the non-strict verification used for ENRs the signature (R = neutral, s = 0)
+        // is valid for every content
+        let mut pk = [0u8; 32];
+        match c.below(3) {
+            0 => pk[0] = 1,
+            1 => {
+                pk = [0xff; 32];
+                pk[0] = 0xee;
+                pk[31] = 0x7f;
+            }
+            _ => {
+                pk[0] = 1;
+                pk[31] = 0x80;
+            }
+        }
+        d.set(b"ed25519", rlp::encode_str(&pk));
+        let mut sig = vec![0u8; 64];
+        sig[0] = 1;
+        d.forced_sig = Some(sig);
+    }
     // boundary sizes by construction
     if c.chance(40) {
         let target = 299 + c.below(5);
@@ -568,6 +593,9 @@ pub fn sign_content(scheme: Scheme, secret: &[u8; 32], alt: bool, content: &[u8]
 }
 
 pub fn sign_draft(d: &Draft, over: SignOver) -> Vec<u8> {
+    if let Some(s) = &d.forced_sig {
+        return s.clone();
+    }
     sign_content(d.scheme, &d.secret, d.alt_signer, &content_for(d, over))
 }
 
